@@ -375,6 +375,7 @@ fn decoder_layer(out: &mut UnitResult) {
     let cfg = anemo::Config::default();
     for (name, bytes, well_formed) in payloads() {
         for as_response in [false, true] {
+            crate::pool::crumb(|| format!("decoding `{name}` as a {}", if as_response { "response" } else { "request" }));
             out.evaluations += 1;
             let b = bytes.clone();
             let r = std::panic::catch_unwind(std::panic::AssertUnwindSafe(|| {
